@@ -24,6 +24,8 @@ pub mod sender;
 pub mod stats;
 pub mod subscriptions;
 pub mod toml_config;
+#[cfg(feature = "verif-hooks")]
+pub mod verif_hooks;
 
 // Test helpers module - available when test-internals feature is enabled
 #[cfg(any(test, feature = "test-internals"))]
